@@ -132,7 +132,10 @@ def gen_frame(rng):
     elif cmd == 111:
         f['nums'] = [rng.choice([0, 2**32 - 1]), rng.choice([0, 5, 8, 65535])]
         msg = gen_cip(rng)
-        if rng.random() < 0.6 or msg['svc'] == 82:
+        # (a bare 0x52 request is the Unconnected Send service itself; a bare 0xD2 reply with an error status and no extended status is, byte
+        # for byte, an Unconnected Send error reply - "impossible to distinguish", parser.py says of it: neither is ever carried bare)
+        ambiguous = msg['svc'] == 82 or (msg['svc'] == 210 and msg.get('status') and msg['status'][0] != 0 and not msg['status'][1])
+        if rng.random() < 0.6 or ambiguous:
             u = dict(kind='wrapper', path=[('class', 6), ('instance', 1)] if rng.random() < 0.6 else gen_path(rng),
                      priority=rng.choice([0, 5, 255]), ticks=rng.choice([0, 157, 255]), msg=msg,
                      route=rng.choice([[], [('port', 1, 0)], gen_path(rng, route=True)]))
